@@ -120,6 +120,9 @@ type opOut struct {
 	Recording bool   // IsRecording
 }
 
+// curAttrLimit is the AttributeCountLimit of the run being checked (0: the default of 128, never reached).
+var curAttrLimit int
+
 type modelState struct {
 	s   state
 	key string
@@ -150,8 +153,12 @@ func step(stI, inI, outI interface{}) (bool, interface{}) {
 	n := st.clone()
 	switch in.Kind {
 	case "setattrs":
+		// with an attribute count limit: an update of a key the span already has always applies, a new key
+		// is kept while the span has fewer than the limit, otherwise dropped (in argument order)
 		for _, kv := range in.KVs {
-			n.Attrs[kv[0]] = kv[1]
+			if _, has := n.Attrs[kv[0]]; has || curAttrLimit == 0 || len(n.Attrs) < curAttrLimit {
+				n.Attrs[kv[0]] = kv[1]
+			}
 		}
 	case "addevent":
 		n.Events = append(n.Events, in.Arg)
@@ -340,6 +347,8 @@ func (engine) Body(r *simdrv.Run) {
 	nSpans := 1 + r.Cfg(3)
 	nTasks := 2 + r.Cfg(4)
 	nProcs := 1 + r.Cfg(2)
+	// a small attribute count limit makes SetAttributes take its in-place update path (after seeded change C10-f)
+	curAttrLimit = []int{0, 0, 2, 3}[r.Cfg(4)]
 	withExtras := r.Cfg(3) == 0 // provider methods (Register/Unregister of other processors) race with the span methods
 	uniq := 0
 	u := func(p string) string { uniq++; return fmt.Sprintf("%s%d", p, uniq) }
@@ -415,6 +424,12 @@ func (engine) Body(r *simdrv.Run) {
 	for i := 0; i < nProcs; i++ {
 		opts = append(opts, sdktrace.WithSpanProcessor(&recProc{w: w, idx: i}))
 	}
+	if curAttrLimit > 0 {
+		lim := sdktrace.NewSpanLimits()
+		lim.AttributeCountLimit = curAttrLimit
+		opts = append(opts, sdktrace.WithRawSpanLimits(lim))
+	}
+	r.Res.Config["attribute_count_limit"] = curAttrLimit
 	tp := sdktrace.NewTracerProvider(opts...)
 	tracer := tp.Tracer("spanlin")
 	spans := make([]trace.Span, nSpans)
